@@ -60,6 +60,32 @@ def h_ctparse_gen(rp):
         seen["b"] = dict(inspect.signature(orig).bind(*a, **k).arguments)
         return iter(())
     C._ctparse = fake
+    if rp["clause"].startswith("reference-time"):
+        # the omitted reference time must be the local wall clock at call time: compare under a zone far from UTC
+        import os
+        import time as _time
+        old_tz = os.environ.get("TZ")
+        os.environ["TZ"] = "Asia/Tokyo"
+        _time.tzset()
+        try:
+            list(C.ctparse_gen("some text"))
+            now = datetime.now()
+        except Exception as e:
+            out["real_exception"] = repr(e)
+            now = datetime.now()
+        finally:
+            C._ctparse = orig
+            if old_tz is None:
+                os.environ.pop("TZ", None)
+            else:
+                os.environ["TZ"] = old_tz
+            _time.tzset()
+        ts = seen.get("b", {}).get("ts")
+        off = None if not isinstance(ts, datetime) else abs((now - ts).total_seconds())
+        out["confirmed"] = off is None or off > 120
+        if out["confirmed"]:
+            out["failing_input"] = {"call": "ctparse_gen(txt) with TZ=Asia/Tokyo", "reference_time_used": repr(ts), "local_wall_clock": repr(now)}
+        return out
     if rp["clause"].startswith("documented-defaults"):
         try:
             list(C.ctparse_gen("some text"))
